@@ -217,7 +217,14 @@ func Run(id, repo, verif, tier string, seed int, writeBaseline bool) int {
 		return 2
 	}
 	defer env.Cleanup()
+	var renameNotes []string
+	if writeBaseline {
+		recordLocals(env, nil)
+	} else {
+		renameNotes = applyRenames(env)
+	}
 	g := p.Generate(env)
+	g.Notes = append(g.Notes, renameNotes...)
 	tGen := time.Since(t0)
 	for i := range g.Jobs {
 		if env.Findings.Match(id, StableName(g.Jobs[i].Obl.Name)) != nil {
